@@ -310,6 +310,25 @@ def opSerdeIpa (ctx : Ctx) (data chunks eofWithData failAfter : String) : String
     | (.error _, _) => "err"
   | _, _ => "bad-op"
 
+/-- `rdpt` / `rdsc`: `common.ReadPoint` / `common.ReadScalar` over a scripted reader -/
+def opReadPoint (ctx : Ctx) (data chunks eofWithData failAfter : String) : String :=
+  match bytesOfHex data, (splitList "," chunks).mapM String.toNat? with
+  | some b, some cs =>
+    let r : Reader := ⟨b, cs, eofWithData = "1", failAfter.toNat?, 0⟩
+    match readPoint (Fp.sqrtPrecomp ctx.lut) r with
+    | (.ok p, r') => s!"ok {hexOfBytes p.bytes} {r'.delivered}"
+    | (.error _, _) => "err"
+  | _, _ => "bad-op"
+
+def opReadScalar (data chunks eofWithData failAfter : String) : String :=
+  match bytesOfHex data, (splitList "," chunks).mapM String.toNat? with
+  | some b, some cs =>
+    let r : Reader := ⟨b, cs, eofWithData = "1", failAfter.toNat?, 0⟩
+    match readScalar r with
+    | (.ok s, r') => s!"ok {frHex s} {r'.delivered}"
+    | (.error _, _) => "err"
+  | _, _ => "bad-op"
+
 /-! ### field operations -/
 
 def sqrtCanon (a : Option Fr) : String :=
@@ -532,6 +551,8 @@ def runLine (ctx : Ctx) (line : String) : String :=
   | ["mpv", l, cs, zs, ys, d, ls, rs, a] => opMpVerify ctx l cs zs ys d ls rs a
   | ["serde", d, c, e, f] => opSerde ctx d c e f
   | ["serde.ipa", d, c, e, f] => opSerdeIpa ctx d c e f
+  | ["rdpt", d, c, e, f] => opReadPoint ctx d c e f
+  | ["rdsc", d, c, e, f] => opReadScalar d c e f
   | ["bary.eval", p, z] => opBaryEval p z
   | ["bary.coeffs", z] => opBaryCoeffs ctx z
   | ["bary.div", k, p] => opBaryDiv ctx k p
